@@ -323,6 +323,8 @@ structure Env where
   hash : String → Cid
   /-- `serde_json::from_str` -/
   parseJson : String → Option JVal
+  /-- the error text `serde_json::from_str` reports for a text that is not JSON -/
+  parseErr : String → String := fun _ => ""
 
 structure Ctx where
   scalars : Scalars := {}
